@@ -1752,6 +1752,11 @@ func HandleSetClientUserInfo(cc *hotline.ClientConn, t *hotline.Transaction) (re
 		}
 	}
 
+	// A client that has not agreed yet is not on anybody's list: its name and icon are announced when it agrees.
+	if cc.AwaitingAgreement {
+		return res
+	}
+
 	for _, c := range cc.Server.ClientMgr.List() {
 		res = append(res, hotline.NewTransaction(
 			hotline.TranNotifyChangeUser,
